@@ -567,3 +567,74 @@ Definition as_dict (valid : list bytes) (resolve : bytes -> callee) (attrs : att
         let (q2, r) := ad_loop resolve explicit ls q1 [] in
         (sq_exit q2, r)             (* finally: the block is left on every path *)
   end.
+
+(* ------------------------------------------------------------------ attrs with arbitrary (hashable) elements *)
+(* What a caller may put into the attrs collection: any hashable Python value, not only strings. *)
+Inductive atom :=
+| EStr (s : bytes) | EInt (z : Z) | ENone | EBool (b : bool) | EBytes (s : bytes)
+| EFloat (num den : Z)          (* a finite float, as the exact rational num/den, den > 0 *)
+| ENaN (id : Z)                 (* a NaN object (equal only to itself, by identity) *)
+| EObj (id : Z).                (* an instance of some other class: default identity equality, whatever its
+                                   __hash__ / __lt__ / __repr__ do *)
+Inductive aname := NA (a : atom) | NTuple (l : list atom).
+
+(* Python's == as set() uses it: numbers compare by value across int / bool / float *)
+Definition atom_num (a : atom) : option (Z * Z) :=
+  match a with
+  | EInt z => Some (z, 1%Z) | EBool b => Some ((if b then 1 else 0)%Z, 1%Z) | EFloat n d => Some (n, d)
+  | _ => None
+  end.
+Definition atom_eqb (a b : atom) : bool :=
+  match atom_num a, atom_num b with
+  | Some (n1, d1), Some (n2, d2) => Z.eqb (n1 * d2) (n2 * d1)
+  | None, None =>
+      match a, b with
+      | EStr x, EStr y => bytes_eqb x y
+      | ENone, ENone => true
+      | EBytes x, EBytes y => bytes_eqb x y
+      | ENaN i, ENaN j => Z.eqb i j
+      | EObj i, EObj j => Z.eqb i j
+      | _, _ => false
+      end
+  | _, _ => false
+  end.
+Fixpoint atoms_eqb (x y : list atom) : bool :=
+  match x, y with
+  | [], [] => true
+  | a :: x', b :: y' => atom_eqb a b && atoms_eqb x' y'
+  | _, _ => false
+  end.
+Definition aname_eqb (a b : aname) : bool :=
+  match a, b with
+  | NA x, NA y => atom_eqb x y
+  | NTuple x, NTuple y => atoms_eqb x y
+  | _, _ => false
+  end.
+
+(* an element is an acceptable name iff it is a str that is in _as_dict_attrnames *)
+Definition name_valid (valid : list bytes) (n : aname) : bool :=
+  match n with NA (EStr s) => mem_bytes s valid | _ => false end.
+Fixpoint strs_of (l : list aname) : list bytes :=
+  match l with [] => [] | NA (EStr s) :: r => s :: strs_of r | _ :: r => strs_of r end.
+(* set(attrs) *)
+Fixpoint dedup_n (l : list aname) (seen : list aname) : list aname :=
+  match l with
+  | [] => []
+  | x :: r => if existsb (aname_eqb x) seen then dedup_n r seen else x :: dedup_n r (x :: seen)
+  end.
+
+Inductive attrs_any := PNone | PNotColl | PColl (elems : list aname).
+
+(* Process.as_dict(attrs, ad_value) for any attrs:
+     attrs = set(attrs); invalid_names = attrs - valid_names; if invalid_names: raise ValueError(...)
+   (the message is built with repr() of each invalid element and is not modelled) *)
+Definition as_dict_any (valid : list bytes) (resolve : bytes -> callee) (attrs : attrs_any) (q : sq)
+  : sq * outcome (list (bytes * ad_val)) :=
+  match attrs with
+  | PNone => as_dict valid resolve ANone q
+  | PNotColl => as_dict valid resolve ANotColl q
+  | PColl ns =>
+      let req := dedup_n ns [] in
+      if existsb (fun n => negb (name_valid valid n)) req then (q, Exc ValueError)
+      else as_dict valid resolve (AColl (strs_of req)) q
+  end.
